@@ -2,14 +2,55 @@
 import numpy as np
 import gen as G
 import hamref as HR
+import emit as E
+import molcap as MC
 
 PROP = 'C07'
-COQ_IMPORTS = ['PT.Base.Scalar']
-FORM = 'see coq(): graph denotation / translation validation where the model is available'
+COQ_IMPORTS = ['PT.Base.Scalar', 'PT.Base.Mx', 'PT.Model.OpGraph', 'PT.Model.Tensor', 'PT.Model.FromOpchains', 'PT.Model.GraphMPO',
+               'PT.Model.Molecular', 'PT.Model.MolFormula', 'PT.Model.MolCheck', 'PT.Model.MolGauge']
+COQ_PREAMBLE = (MC.PREAMBLE +
+                'Definition mchains (L : nat) tt vv : list (chain QIring) := @mol_chains QIring qhalf L (@tab2 QIring tt) (@tab4 QIring vv).\n'
+                'Definition schains (L : nat) tt vv : res (list (chain QIring)) := @spin_chains QIring qhalf L (@tab2 QIring tt) (@tab4 QIring vv).\n'
+                'Definition zm (r c : nat) (d : list (list Z)) : mx Zring := @mkmx Zring r c d.\n')
+SHARD = 3
+FORM = ('E (exact runs with dyadic coefficients k/8, real and Gaussian-rational, instance QIring; every float operation of the code is exact). '
+        'Per mol/spin case, evaluated in Coq: (1) the chain LIST the implementation passes to OpGraph.from_opchains (captured by wrapping '
+        'pytenet.hamiltonian.OpGraph from outside: oids, qnums, coefficient, istart per chain, in order, and the arguments L, oid_identity) '
+        'equals the enumeration of Model/Molecular.v (chains_eqb); (2) the optimized graph the implementation hands to MPO.from_opgraph '
+        '(captured by wrapping pytenet.hamiltonian.MPO) is identical (graph_eqb) to the graph the model of from_opchains builds from the '
+        'MODEL chain list with the model vertex cover, and that graph is linked, consistent, of length L, last layer = end terminal '
+        '(the hypotheses of C07_mol_opt_den / C05_chains_to_mpo); (3) translation validation of the EXPLICIT construction (not modelled): '
+        'the graph built with optimize=False is shipped to Coq, which checks linked / is_consistent (fuel = measured number of BFS dequeues) '
+        '/ length L / last layer and, by enumerating all its start->end walks (Model/MolCheck.v walks, sound by C07_den_from_walks), that its '
+        'word polynomial equals that of the model chain list (poly_eqb: coefficient sums compared on every word occurring on either side; '
+        'no sampling of words) -- by C07_both_paths_agree both build paths then denote the same operator for that input; the same walk '
+        'comparison is applied to the optimized implementation graph; (4) the implementation operator maps (2x2 matrices, 23 Kronecker '
+        'products and the SpinMolecularOID numbering) equal the letters of Model/MolFormula.v. '
+        'Gauge cases with an exactly representable unitary: see PARTIAL (d). Symbolic form S is replaced by the Coq-internal symbolic '
+        'comparison of C07_mol_formula_bounded_partial (all coefficient values), which needs no run of the implementation.')
+TRUSTED = ['hand-written Gallina mirror Model/Molecular.v of the optimized chain enumerations, tied to the code by exact agreement of the chain list on every case',
+           'Model/MolFormula.v: the second-quantised formula as sitewise products of Jordan-Wigner words (string to the right) -- the specification; '
+           'its operator table is kernel-checked against the 2x2 matrices and the matrices against the implementation opmap per run',
+           'C05 development (Model/FromOpchains.v, Model/OpGraph.v den / is_consistent_fuel, Proofs/DenRev_C05.v linked)',
+           'harness/molcap.py (capture by attribute wrapping, exact rational emitters); harness/hamref.py (independent Fock-space reference, search only)']
+PARTIAL = ('proved for ALL L and all coefficient functions over any cring: optimized graph = enumerated chain list whenever the model of from_opchains '
+           'returns a graph (any cover oracle); length, well-formedness, lattice fit and charge balance of every enumerated spinless chain; '
+           'soundness of the walk-based translation validation for any graph. BOUNDED in L but for all coefficient values (kernel vm_compute of a '
+           'symbolic multiset comparison): chain list = second-quantised formula for L <= 8 (spinless) and L <= 5 (spin); hence optimized graph = '
+           'formula in that range. NOT proved: the formula identity beyond that range; everything about the explicit constructions (not modelled: '
+           'validated per case in Coq on the implementation graph, L = 4..6 quick / ..7 thorough spinless, 2..3 quick / ..5 thorough spin, numeric '
+           'dyadic coefficients, i.e. sampled in the coefficients); that to_spin_opchain never raises (evaluated for L <= 5 and per case); success '
+           'of from_opchains (C05 gap, evaluated per case). (d) gauge matrices: nothing proved; for gauge cases whose unitary is exactly '
+           'representable (swap, phases i^k, their products, Pythagorean rotations (3/5,4/5), (5/13,12/13) composed with them) the implementation is '
+           'run with integer coefficient tensors scaled so that the rotated coefficients are integers, and Coq evaluates over Q[i] the MPO identity '
+           'in the convention of the documented usage -- all matrix elements of H.A[:i] (v_l W\'_i)(W\'_{i+1} v_r^T) H.A[i+2:] against those of the '
+           'MPO of the rotated coefficients -- exactly, with the returned v_l, v_r first compared entrywise (2^-40) with the exact rationals they '
+           'round; bounded in L (4..5), sampled in u; random unitaries only through the numpy predicate.')
 RULE = ('spinless: L in 1..7 (explicit path L >= 4), spin orbitals: L in 1..4 (explicit L >= 2); coefficient tensors real/complex, dense, sparse, '
         'symmetric (physical symmetries), zero-padded, integer-valued; both optimize flags and their agreement; gauge: every orbital pair i and '
         'random 2x2 unitaries (real rotations, phases, generic); non-trivial = L >= 3 or explicit path; distinct by input digest')
 IMPL_PARALLEL = True
+GAUGE_EXACT_LMAX = 5
 
 
 def cases(rng, tier):
@@ -26,6 +67,11 @@ def cases(rng, tier):
         out.append({'kind': kind, 'L': L, 'seed': rng.getrandbits(30), 'dtype': rng.choice(['real', 'real', 'complex']),
                     'struct': rng.choice(['dense', 'dense', 'sparse', 'symmetric', 'padded', 'integer']),
                     'utype': rng.choice(['rotation', 'phase', 'generic', 'swap'])})
+    if tier == 'thorough':
+        # largest sizes: exact runs + Coq only (the dense reference of the spin model at L = 5 is out of reach)
+        for kind, L, dt, st in (('mol', 7, 'complex', 'dense'), ('mol', 7, 'real', 'sparse'), ('spin', 4, 'complex', 'dense'),
+                                ('spin', 5, 'real', 'dense'), ('spin', 5, 'complex', 'sparse')):
+            out.append({'kind': kind, 'L': L, 'seed': 1000 + L, 'dtype': dt, 'struct': st, 'utype': 'swap', 'tvonly': True})
     return out
 
 
@@ -68,6 +114,32 @@ def unitary(case):
     return Q * (np.diag(R) / np.abs(np.diag(R)))
 
 
+def exact_coefficients(case):
+    """the case's coefficient tensors rounded to multiples of 1/8 (structure kept: zeros stay zero, symmetries survive the
+    entrywise odd rounding); all float arithmetic of the constructors on them is exact"""
+    t, v = coefficients(case)
+    t, v = MC.dyadic(t), MC.dyadic(v)
+    if not np.any(t) and not np.any(v):
+        t[0, 0] = 1.0
+    return t, v
+
+
+def explicit_defined(case):
+    return (case['L'] >= 4) if case['kind'] == 'mol' else (case['L'] >= 2)
+
+
+def exact_runs(case):
+    """both build paths on the exact coefficients with OpGraph.from_opchains / MPO.from_opgraph wrapped from outside"""
+    te, ve = exact_coefficients(case)
+    out = {}
+    ro, _ = MC.capture(case['kind'], te, ve, True)
+    out['opt'] = ro
+    if explicit_defined(case):
+        rx, _ = MC.capture(case['kind'], te, ve, False)
+        out['exp'] = {k: rx[k] for k in ('graph', 'error') if k in rx}
+    return out
+
+
 def impl(case):
     import warnings
     warnings.simplefilter('ignore')
@@ -76,7 +148,10 @@ def impl(case):
     L = case['L']
     res = {}
     try:
+        if case['kind'] in ('mol', 'spin') and case.get('tvonly'):
+            return {'exact': exact_runs(case)}
         if case['kind'] in ('mol', 'spin'):
+            res['exact'] = exact_runs(case)
             f = ptn.molecular_hamiltonian_mpo if case['kind'] == 'mol' else ptn.spin_molecular_hamiltonian_mpo
             ref = HR.molecular(t, v) if case['kind'] == 'mol' else HR.spin_molecular(t, v)
             scale = 1.0 + float(np.linalg.norm(ref))
@@ -115,7 +190,13 @@ def impl(case):
             tensors[i + 1] = np.einsum(v_r, (3, 4), H2.A[i + 1], (0, 1, 2, 4), (0, 1, 2, 3))
             M = G.mpo_dense(tensors)
             worst = max(worst, float(np.linalg.norm(M - ref)) / (1.0 + float(np.linalg.norm(ref))))
-        return {'gauge': worst}
+        res = {'gauge': worst}
+        if L <= GAUGE_EXACT_LMAX:
+            try:
+                res['exact'] = exact_gauge_runs(case)
+            except Exception as e:
+                res['exact'] = {'error': type(e).__name__}
+        return res
     except Exception as e:
         import traceback
         tb = traceback.extract_tb(e.__traceback__)[-1]
@@ -126,6 +207,11 @@ def prop(case, r):
     if 'error' in r:
         return ['%s raised %s: %s' % (case['kind'], r['error'], r.get('detail', ''))]
     msgs = []
+    if case.get('tvonly'):
+        for k in ('opt', 'exp'):
+            if 'error' in r['exact'].get(k, {}):
+                msgs.append('%s construction (%s path) raised %s on exact coefficients' % (case['kind'], k, r['exact'][k]['error']))
+        return msgs
     if case['kind'] == 'gauge':
         if r['gauge'] > 1e-10:
             msgs.append('gauge matrices do not map the explicit MPO to that of the rotated coefficients (%.3g)' % r['gauge'])
@@ -144,15 +230,170 @@ def prop(case, r):
     return msgs
 
 
+def zmx_lit(m):
+    m = np.asarray(m)
+    assert np.all(m == np.round(m))
+    return '(zm %s %s %s)' % (E.nat(m.shape[0]), E.nat(m.shape[1]), E.lst([E.lst([E.z(int(x)) for x in row]) for row in m]))
+
+
 def coq(case, r):
+    if case['kind'] == 'gauge':
+        return coq_gauge(case, r)
+    ex = r.get('exact')
+    if ex is None:
+        return None if 'error' in r else 'false'
+    L = case['L']
+    ro = ex['opt']
+    if 'error' in ro or 'error' in ex.get('exp', {}) or 'chains' not in ro or 'graph' not in ro:
+        return 'false'          # the constructors must not raise inside the documented domain
+    te, ve = exact_coefficients(case)
+    mol = case['kind'] == 'mol'
+    parts = ['Nat.eqb %s %s' % (E.nat(ro['L']), E.nat(L)), '(%s =? 0)' % E.z(ro['idn']),
+             '%s (R := QIring) qhalf %s tt vv captured' % ('check_mol_chains' if mol else 'check_spin_chains', E.nat(L)),
+             'check_graph_chains (R := QIring) gopt %s 0 cs %s' % (E.nat(L), MC.big_nat(MC.bfs_fuel(ro['graph']))),
+             'check_opt_graph (R := QIring) cover_model cs %s 0 %s gopt' % (E.nat(L), MC.big_nat(MC.bfs_fuel(ro['graph']))),
+             '%s %s' % ('mol_opmap_check' if mol else 'spin_opmap_check',
+                        E.lst([E.pair(E.z(k), zmx_lit(m)) for k, m in sorted(ro['opmap'].items(), key=lambda kv: int(kv[0]))]))]
+    if not mol:
+        # the SpinMolecularOID numbering of the implementation against the model's pair_oid
+        parts.append('forallb (fun p => match pair_oid (fst (fst p)) (snd (fst p)) with Some o => o =? snd p | None => false end) %s'
+                     % E.lst(['(%s, %s, %s)' % (E.z(a), E.z(b), E.z(o)) for a, b, o in ro['pairmap']]))
+        parts.append('Nat.eqb %d 23' % len(ro['pairmap']))
+    lets = ['let tt := %s in' % MC.tab_lit(te), 'let vv := %s in' % MC.tab_lit(ve),
+            'let captured := %s in' % E.lst([MC.chain_lit(c) for c in ro['chains']]),
+            'let gopt := %s in' % MC.graph_lit(ro['graph'])]
+    if 'exp' in ex:
+        lets.append('let gexp := %s in' % MC.graph_lit(ex['exp']['graph']))
+        parts.append('check_graph_chains (R := QIring) gexp %s 0 cs %s' % (E.nat(L), MC.big_nat(MC.bfs_fuel(ex['exp']['graph']))))
+    body = ' && '.join(parts)
+    if mol:
+        return '\n  '.join(lets) + '\n  let cs := mchains %s tt vv in\n  %s' % (E.nat(L), body)
+    return '\n  '.join(lets) + '\n  match schains %s tt vv with Ok cs => %s | Err _ => false end' % (E.nat(L), body)
+
+
+# ---- (d) exact gauge runs: unitaries with Gaussian-rational entries Un / den ----
+def exact_unitary(case):
+    """(Un, den): u = Un / den is exactly unitary, Un a Gaussian-integer matrix"""
+    k = case['seed'] % 8
+    a, b = (case['seed'] // 8) % 4, (case['seed'] // 32) % 4
+    ph = lambda x, y: np.diag([1j ** x, 1j ** y])
+    swap = np.array([[0, 1], [1, 0]], dtype=complex)
+    r35 = np.array([[3, -4], [4, 3]], dtype=complex)
+    r513 = np.array([[5, -12], [12, 5]], dtype=complex)
+    g5 = np.array([[3, 4j], [4j, 3]], dtype=complex)
+    if k == 0:
+        return swap, 1, 'swap'
+    if k == 1:
+        return ph(a, b), 1, 'phase'
+    if k == 2:
+        return swap @ ph(a, b), 1, 'swap*phase'
+    if k == 3:
+        return r35, 5, 'rot(3/5,4/5)'
+    if k == 4:
+        return r513, 13, 'rot(5/13,12/13)'
+    if k == 5:
+        return ph(a, b) @ r35 @ ph(b, a + 1), 5, 'phase*rot*phase'
+    if k == 6:
+        return g5, 5, 'complex(3,4i)/5'
+    return swap @ r35 @ ph(a, b), 5, 'swap*rot*phase'
+
+
+def exact_gauge_runs(case):
+    import pytenet as ptn
+    L = case['L']
+    rs = np.random.default_rng(case['seed'] + 11)
+    cplx = case['dtype'] == 'complex'
+    def rint(shape, hi):
+        x = rs.integers(-hi, hi + 1, size=shape).astype(float)
+        return x + 1j * rs.integers(-hi, hi + 1, size=shape) if cplx else x
+    t0, v0 = rint((L, L), 3), rint((L, L, L, L), 2)
+    if case['struct'] == 'sparse':
+        v0 = v0 * (rs.random((L, L, L, L)) < 0.3)
+    Un, den, name = exact_unitary(case)
+    t, v = den ** 2 * t0, den ** 4 * v0            # scaled so that the rotated coefficients are Gaussian integers
+    H = ptn.molecular_hamiltonian_mpo(t, v, optimize=False)
+    ten = lambda a: np.stack([np.asarray(a).real, np.asarray(a).imag], axis=-1).tolist()
+    out = {'uname': name, 'den': den, 'H': [ten(a) for a in H.A], 'runs': []}
+    for i in range(L - 1):
+        Uf = np.identity(L, dtype=complex); Uf[i:i + 2, i:i + 2] = Un      # den * U on the rotated pair
+        W = [Uf.copy() for _ in range(2)]
+        # exact integer arithmetic in complex128: U = diag(1,..,Un/den,..,1); the identity part carries the factor den
+        Ui = np.identity(L, dtype=complex) * den; Ui[i:i + 2, i:i + 2] = Un
+        t2 = np.einsum(Ui, (2, 0), Ui.conj(), (3, 1), t0, (2, 3), (0, 1))
+        v2 = np.einsum(Ui, (4, 0), Ui, (5, 1), Ui.conj(), (6, 2), Ui.conj(), (7, 3), v0, (4, 5, 6, 7), (0, 1, 2, 3))
+        assert np.all(t2 == np.round(t2)) and np.all(v2 == np.round(v2)) and np.max(np.abs(v2)) < 2 ** 50
+        H2 = ptn.molecular_hamiltonian_mpo(t2, v2, optimize=False)
+        u2 = Un / den
+        v_l, v_r = ptn.molecular_hamiltonian_orbital_gauge_transform(H, u2, i)
+        out['runs'].append({'i': i, 'H2': [ten(a) for a in H2.A], 'v_l': ten(v_l), 'v_r': ten(v_r)})
+    return out
+
+
+def _cplx(a):
+    a = np.asarray(a, dtype=float)
+    return a[..., 0] + 1j * a[..., 1]
+
+
+def _snap(m, den):
+    """the Gaussian rationals with denominator den^2 nearest to the recorded entries"""
+    from fractions import Fraction
+    d2 = den * den
+    m = _cplx(m)
+    return [[(Fraction(int(round(x.real * d2)), d2), Fraction(int(round(x.imag * d2)), d2)) for x in row] for row in m]
+
+
+def _qq(re, im):
+    from fractions import Fraction
+    re, im = Fraction(re), Fraction(im)
+    den = int(np.lcm(re.denominator, im.denominator))
+    if im == 0 and re == 0:
+        return 'q0'
+    return '(qq %s %s %d)' % (E.z(int(re * den)), E.z(int(im * den)), den)
+
+
+def _mx_exact(rows):
+    return '(mq %s %s %s)' % (E.nat(len(rows)), E.nat(len(rows[0])), E.lst([E.lst([_qq(re, im) for re, im in row]) for row in rows]))
+
+
+def _osite(a):
+    W = _cplx(a)
+    return E.lst([E.lst([MC.mx_lit(W[s, t]) for t in range(W.shape[1])]) for s in range(W.shape[0])])
+
+
+def coq_gauge(case, r):
+    ex = r.get('exact')
+    if ex is None:
+        return None
+    if 'error' in ex:
+        return 'false'
+    lets = ['let H := %s in' % E.lst([_osite(a) for a in ex['H']])]
+    parts = []
+    for run in ex['runs']:
+        i = run['i']
+        lets.append('let H2_%d := %s in' % (i, E.lst([_osite(a) for a in run['H2']])))
+        parts.append('check_gauge H H2_%d %s %s %s %s %s' % (i, E.nat(i), _mx_exact(_snap(run['v_l'], ex['den'])), _mx_exact(_snap(run['v_r'], ex['den'])),
+                                                         MC.mx_lit(_cplx(run['v_l'])), MC.mx_lit(_cplx(run['v_r']))))
+    return '\n  '.join(lets) + '\n  ' + ' && '.join(parts)
+
+
+def finding_key(case, r, msgs):
+    """the zero operator: every chain coefficient vanishes (t = 0 and the antisymmetrised v = 0, e.g. L = 1 with t_00 = 0), and
+    OpGraph.from_opchains raises on an all-zero chain list"""
+    if r.get('error') == 'AssertionError' and 'bipartite_graph.py' in r.get('detail', '') and case['kind'] in ('mol', 'spin') and case['L'] <= 3:
+        t, v = coefficients(case)
+        ref = HR.molecular(t, v) if case['kind'] == 'mol' else HR.spin_molecular(t, v)
+        if not np.any(ref):
+            return 'molecular-zero-hamiltonian'
     return None
 
 
 def klass(case, r):
     if 'error' in r:
         return case['kind'] + '/error'
+    if case.get('tvonly'):
+        return '%s/L%d/%s/%s' % (case['kind'], case['L'], case['struct'], 'translation-validation-only')
     return '%s/L%d/%s/%s' % (case['kind'], case['L'], case['struct'], 'both-paths' if 'err_exp' in r else ('gauge' if 'gauge' in r else 'opt-only'))
 
 
 def nontrivial(case, r):
-    return 'error' not in r and (case['L'] >= 3 or 'err_exp' in r)
+    return 'error' not in r and (case['L'] >= 3 or 'err_exp' in r or bool(case.get('tvonly')))
